@@ -5,7 +5,7 @@
   extracted from the code on this run.
 -/
 import AxVerif.Lemmas.Wire
-import AxVerif.Generated
+import AxVerif.Generated.Wire
 namespace AxVerif.Wire
 open AxVerif
 
